@@ -11,9 +11,12 @@ fn main() {
     let hard: usize = std::env::args().nth(3).unwrap().parse().unwrap();
     let st: State = try_from_notation::<State, Fen>(&fen).unwrap();
     let plan = Plan::new(cancel, 0, hard);
+    let shape: Vec<usize> = std::env::var("DBG_SHAPE").unwrap_or("4,256".into()).split(',').map(|x| x.parse().unwrap()).collect();
+    let depth: Option<usize> = std::env::var("DBG_DEPTH").ok().map(|x| x.parse().unwrap());
+    let seed: u64 = std::env::var("DBG_SEED").ok().map(|x| x.parse().unwrap()).unwrap_or(6);
     let t = std::time::Instant::now();
     let mut n = 0;
-    let _ = Searcher::verif_analyze_sync(st, &Evaluator::default(), 6, None, Some(SearchArtifact::verif_new(6, 4, 256)), Some(1), Some(plan.clone()), &mut |e| {
+    let _ = Searcher::verif_analyze_sync(st, &Evaluator::default(), seed, depth, Some(SearchArtifact::verif_new(seed, shape[0], shape[1])), Some(1), Some(plan.clone()), &mut |e| {
         n += 1;
         if n < 12 { if let StatusEvent::BestMove { line, evaluation } = &e { println!("best {:?} {}", line.iter().map(|m| m.to_string()).collect::<Vec<_>>(), evaluation); } else if let StatusEvent::Progress{depth,nodes_searched,..} = &e { println!("progress d{} n{}", depth, nodes_searched); } }
     });
